@@ -173,6 +173,22 @@ def r15_4(ctx: Ctx) -> None:
         ctx.check(not late, "R15.4", f, i, "the member cursor advances only after the source was archived",
                   "Worker.archive advances current_file_index before the source is opened/compressed: after a failed (and rolled back) write the cursor is one ahead of the "
                   "member list, so every later write raises IndexError and the members are lost")
+    # the 'last member with data' marker (flush_archive adds the flushed tail to files[last_file_index]) is committed after success too
+    marks = [n for n in walk(f.node) if isinstance(n, ast.Assign) and norm(n.targets[0]) == "self.last_file_index"]
+    # ... or a call of a helper of the same class that sets it (its arguments are evaluated before the helper runs)
+    for c in q.calls(f):
+        for tq in shared.targets_of(ctx, f, c):
+            g = ctx.res._func_by_q(tq)
+            if g is not None and g is not f and g.module == f.module and g.cls == f.cls and tq not in ("py7zr:Worker.write", "py7zr:Worker.writestr") \
+                    and any(isinstance(n, ast.Assign) and norm(n.targets[0]) == "self.last_file_index" for n in walk(g.node)):
+                marks.append(c)
+    ctx.floor("R15.4", len(marks), 1, "updates of Worker.last_file_index in Worker.archive")
+    for m in marks:
+        late = [c for c in fallible if cfg.reaches(q.node_for(f, m), q.node_for(f, c))]
+        ctx.check(not late, "R15.4", f, m, "last_file_index is set only after the source was archived",
+                  "Worker.archive points last_file_index at the member BEFORE its source is opened/compressed: when that call fails and the member is rolled back, "
+                  "last_file_index is one past the member list and close() (flush_archive) raises IndexError: the earlier members are lost",
+                  construct="last_file_index before fallible call")
     # and it advances on every normal path (a member without a stream still moves the cursor)
     ok = cfg.every_path_to_exit_passes(cfg.entry, [q.node_for(f, i) for i in incs])
     ctx.check(ok, "R15.4", f, f.node, "the member cursor advances on every successful path", "some successful path through Worker.archive does not advance current_file_index", construct="cursor advance paths")
@@ -218,7 +234,55 @@ def r15_3(ctx: Ctx) -> None:
     ctx.check(ok, "R15.3", f, f.node, "__exit__ always calls close", "__exit__ does not call close() on every path", construct="__exit__ close")
 
 
+def r15_6(ctx: Ctx) -> None:
+    """the write side swallows no I/O error on POSIX except the documented one: a handler for OSError (or broader) in the write
+    closure leaves without re-raising only where the facts restrict errno to ELOOP under dereference, or the platform to win32.
+    Anything else makes a vanished/unreadable source disappear from the archive without the caller being told."""
+    roots = [shared.szf(ctx, n) for n in ("write", "writeall", "writef", "writestr")]
+    clo = ctx.res.closure(roots)
+    n_h = 0
+    for fq, f in sorted(clo.items()):
+        if f.module != "py7zr":
+            continue
+        cfg = cfg_of(f.node)
+        for h in [n for n in walk(f.node) if isinstance(n, ast.ExceptHandler)]:
+            names = {n.id for n in ast.walk(h.type) if isinstance(n, ast.Name)} | {n.attr for n in ast.walk(h.type) if isinstance(n, ast.Attribute)} if h.type is not None else {"BaseException"}
+            if not names & {"OSError", "IOError", "EnvironmentError", "Exception", "BaseException"}:
+                continue
+            n_h += 1
+            hn = cfg.by_ast.get(h)
+            if hn is None:
+                continue
+            # statements inside the handler after which control leaves the handler normally
+            leaves = []
+            inside = {id(x) for st in h.body for x in ast.walk(st)}
+            for nd in cfg.reachable_from(hn):
+                if nd.kind == "stmt" and id(nd.ast) in inside and not isinstance(nd.ast, ast.Raise):
+                    if any((s_.kind not in ("exc",)) and (s_ is cfg.exit or (getattr(s_, "ast", None) is not None and id(s_.ast) not in inside)) for s_ in nd.succ):
+                        leaves.append(nd.ast)
+            for lv in leaves:
+                facts = q.facts_at(f, lv)
+                eloop_only = False
+                win = False
+                for cd, pol in facts:
+                    if not pol:
+                        continue
+                    if isinstance(cd, ast.Compare) and len(cd.ops) == 1 and isinstance(cd.ops[0], (ast.In, ast.Eq)) and "errno" in norm(cd.left):
+                        consts = cd.comparators[0].elts if isinstance(cd.comparators[0], (ast.List, ast.Tuple, ast.Set)) else [cd.comparators[0]]
+                        if consts and all(norm(x).endswith("ELOOP") for x in consts):
+                            eloop_only = True
+                    if isinstance(cd, ast.Compare) and "platform" in norm(cd.left) and isinstance(cd.comparators[0], ast.Constant) and cd.comparators[0].value == "win32" \
+                            and isinstance(cd.ops[0], ast.Eq):
+                        win = True
+                ctx.check(eloop_only or win, "R15.6", f, lv, f"{fq}: an OSError is dropped only for ELOOP (or on win32)",
+                          f"{fq}: the handler `except {norm(h.type) if h.type else ''}` leaves without re-raising on a path that is not restricted to errno ELOOP (or to win32): "
+                          "on POSIX a source that vanishes or cannot be read (ENOENT, EACCES, EIO) is silently left out of the archive and the caller is not told",
+                          construct=f"swallowing handler exit {norm(lv)[:40]}", path=ctx.res.call_path(roots, fq))
+    ctx.floor("R15.6", n_h, 1, "OSError/catch-all handlers in the write closure")
+
+
 def run(ctx: Ctx) -> None:
+    r15_6(ctx)
     r15_1(ctx)
     r15_2(ctx)
     r15_3(ctx)
